@@ -102,6 +102,10 @@ def create_load_table(
                     create_table_file = True
                     break
 
+    if force_load and not (table_file_name and os.path.exists(table_file_name)):
+        # There is no table file to load. Calculate the table.
+        force_load = False
+
     if (create_table_file or force_create) and not force_load:
         table = create_table(
             grammar,
